@@ -83,8 +83,13 @@ CLAIMED["C14"] = dict(
          "the rotation after every dump against a vector model; then for every file-system operation (open, "
          "write, writev, close, rename) of every dump of the history the process is killed before / after / in the "
          "middle of (torn write) that operation and the surviving directory is inspected: every dump the rotation "
-         "rule keeps must still be on disk complete and checksum-valid. Thorough runs enumerate the complete grid "
-         "backups 0..8 x dumps 0..20 with all crash points; quick runs a subset plus seeded samples.",
+         "rule keeps must still be on disk complete and checksum-valid. Histories include points at which the "
+         "process is replaced by one restarted in place. Thorough runs enumerate the complete grid "
+         "backups 0..8 x dumps 0..20 with all crash points; quick runs a subset plus seeded samples. A second, "
+         "system-level part (E-RHD, seeded sampling) kills whole task-based RHD runs at a numbered file operation of "
+         "a restart dump, compares the surviving files byte for byte with the complete dumps of the uninterrupted "
+         "run, restarts from the newest complete one (must repeat the uninterrupted run bit for bit) and kills the "
+         "restarted process again during its first dump.",
     note="crash model = process death (data handed to the kernel survives, stream buffers are lost); no power-loss "
          "/ fsync model, matching the property's wording",
     technique="deterministic simulation with crash-point enumeration over a simulated file layer",
@@ -234,7 +239,7 @@ def main():
              "kind_free_text": "TimeLine driven by request histories with save/restore faults"},
             {"name": "E-FS", "path": "engines/efs.cpp", "serves_properties": ["C14"],
              "kind_free_text": "restart dump rotation in forked children with process death at numbered file-system operations"},
-            {"name": "E-RHD", "path": "engines/erhd.cpp", "serves_properties": ["C01", "C04", "C07", "C09", "C10", "C12"],
+            {"name": "E-RHD", "path": "engines/erhd.cpp", "serves_properties": ["C01", "C04", "C07", "C09", "C10", "C12", "C14"],
              "kind_free_text": "whole TaskBasedRadiationHydrodynamicsSimulation::do_simulation runs inside the simulator"},
             {"name": "E-RNG", "path": "engines/erng.cpp", "serves_properties": ["C13"],
              "kind_free_text": "RandomGenerator under draw/save/restore/reseed histories against GSL ranlxd2"},
